@@ -53,12 +53,34 @@ def regenerate_tie():
     out = extract.OUT
     old = open(out).read() if os.path.exists(out) else None
     if old != text:
+        if os.environ.get("VERIF_REPO", "/repo").rstrip("/") != "/repo":
+            return False, "constants extracted from the scratch tree differ from Gen/Params.v (shared file not overwritten in VERIF_REPO mode)"
         open(out, "w").write(text)
     return True, ""
 
 
 def build_harness():
+    """Builds the executor against /repo's working tree.  With VERIF_REPO=<scratch worktree> (used only to
+    try seeded changes without touching /repo) an alternate copy of the crate manifest is generated
+    with the path dependencies redirected, built into its own target dir, and used via MXVM_BIN."""
     env = dict(os.environ, CARGO_NET_OFFLINE="true")
+    repo = os.environ.get("VERIF_REPO", "/repo").rstrip("/")
+    if repo != "/repo":
+        tag = hashlib.sha1(repo.encode()).hexdigest()[:10]
+        alt = os.path.join(ROOT, ".cache", "alt", tag)
+        os.makedirs(os.path.join(alt, ".cargo"), exist_ok=True)
+        man = open(os.path.join(ROOT, "harness", "Cargo.toml")).read().replace('"/repo/', f'"{repo}/')
+        open(os.path.join(alt, "Cargo.toml"), "w").write(man)
+        open(os.path.join(alt, ".cargo", "config.toml"), "w").write(f'[net]\noffline = true\n[build]\ntarget-dir = "{alt}/target"\n')
+        import shutil
+        shutil.copy(os.path.join(repo, "Cargo.lock"), os.path.join(alt, "Cargo.lock"))
+        if not os.path.exists(os.path.join(alt, "src")):
+            os.symlink(os.path.join(ROOT, "harness", "src"), os.path.join(alt, "src"))
+        rc, out, err = sh("cargo build --offline 2>&1 | tail -40", cwd=alt, env=env, timeout=3000)
+        exe = os.path.join(alt, "target", "debug", "mxvm")
+        ok = os.path.exists(exe) and "could not compile" not in out and rc == 0
+        os.environ["MXVM_BIN"] = exe
+        return ok, out
     rc, out, err = sh("cargo build --offline 2>&1 | tail -40", cwd=os.path.join(ROOT, "harness"), env=env, timeout=3000)
     ok = os.path.exists(os.path.join(ROOT, ".cache", "target", "debug", "mxvm")) and "error" not in out.lower().split("warning")[0] and "could not compile" not in out
     return ok, out
